@@ -1,3 +1,41 @@
+//! Conformance harness of the specification-growth module G19 (the
+//! configuration flags and the literal fast path of yash-fnmatch), see
+//! spec/FnmatchExt.tla.
+//!
+//! * `enum`   spec -> impl: every pattern line printed by TLC
+//!            (Gen_FnmatchExt) is compiled by the real `yash_fnmatch` under
+//!            every configuration of the header; `is_match` / `find` /
+//!            `rfind`, `as_literal`, the atoms of `Ast::new` and the error of
+//!            `parse_with_config` are compared with what TLC printed; a
+//!            sample of full observations is written for Trace_FnmatchExt.
+//! * `random` impl -> spec: seeded random (pattern, text, configuration)
+//!            cases beyond the exhaustive bounds are executed on the real
+//!            code and recorded for validation by spec/Trace_FnmatchExt.tla.
+//! * `redo`   re-executes recorded cases (replay of a violation).
+//! * `shell`  `case` and the four trims through the whole shell for the
+//!            lines printed by TLC (Gen_FnmatchExt, Kind = "shell").
+mod enumr;
+mod obs;
+mod random;
+mod shell;
+
 fn main() {
-    println!("stub");
+    let args: Vec<String> = std::env::args().collect();
+    if args.len() < 2 {
+        eprintln!("usage: yv-g19 <enum|random|redo|shell> ...");
+        std::process::exit(2);
+    }
+    yvcommon::util::quiet_panics();
+    let rest = &args[2..];
+    let code = match args[1].as_str() {
+        "enum" => enumr::run(rest),
+        "random" => random::run(rest),
+        "redo" => random::redo(rest),
+        "shell" => shell::run(rest),
+        other => {
+            eprintln!("unknown subcommand {other}");
+            2
+        }
+    };
+    std::process::exit(code);
 }
